@@ -29,6 +29,9 @@
 **   mode=cast     cast(obj, T) for every ordered pair of exported types
 **   mode=matrix only=fail warm=1   (C12) the cells whose class is absent / whose member is empty, cold and after
 **                 every other class of the type has been looked up
+**   mode=null     (C12) NULL as receiver of every public function with object parameters, and NULL in every further
+**                 object position with a valid receiver of every kind that implements the class (defects=1 also runs
+**                 the cases recorded as library defects; survey=1 forks every case and prints what happens)
 **   mode=api      (C12) the public functions (len, push, get, c_float, sopen, lock, current, ...) on an object of
 **                 every exported type that lacks the needed class or member, cold and warm: ClassError, object
 **                 bytes unchanged; and such objects offered to containers as element / key / value
@@ -1468,6 +1471,379 @@ static void mode_api(void) {
   restore_world();
 }
 
+static int vf_extra_skipped;
+
+/* ---- mode=null (C12): NULL as receiver and in every further object position -------------------------------- */
+
+enum { K_ARRAY, K_LIST, K_TABLE, K_TREE, K_STRING, K_INT, K_FLOAT, K_REF, K_BOX, K_TUPLE, K_RANGE, K_FILE, K_MUTEX, K_FUNCTION, NK };
+static const char* KN[NK] = { "Array", "List", "Table", "Tree", "String", "Int", "Float", "Ref", "Box", "Tuple", "Range", "File", "Mutex", "Function" };
+
+static var g_int7, g_idx0, g_strA, g_strR, g_out, g_in, g_ta, g_tb, g_reft, g_args0;
+static var RCV[NK];
+static int64_t fn_calls;
+static var null_fn(var args) { fn_calls++; return NULL; }
+static void null_markcb(var gc, void* p) { (void)gc; (void)p; }
+
+/* receivers are collector roots: some (Range, Box) keep collector-managed parts that must stay marked */
+static var make_recv(int k) {
+  switch (k) {
+  case K_ARRAY: return new_root(Array, Int, $I(10), $I(11));
+  case K_LIST: return new_root(List, Int, $I(10), $I(11));
+  case K_TABLE: return new_root(Table, Int, Int, $I(0), $I(10), $I(1), $I(11));
+  case K_TREE: return new_root(Tree, Int, Int, $I(0), $I(10), $I(1), $I(11));
+  case K_STRING: return new_root(String, $S("ab"));
+  case K_INT: return new_root(Int, $I(5));
+  case K_FLOAT: return new_root(Float, $F(2.5));
+  case K_REF: return new_root(Ref, g_reft);
+  case K_BOX: return new_root(Box, new_root(Int, $I(88)));
+  case K_TUPLE: return new_root(Tuple, g_ta, g_tb);
+  case K_RANGE: return new_root(Range, $I(3));
+  case K_FILE: return new_root(File);
+  case K_MUTEX: return new_root(Mutex);
+  default: return new_root(Function, $(Function, null_fn));
+  }
+}
+
+/* what the receiver holds, as text (no addresses except identity tests turned into 0/1) */
+static void fingerprint(int k, var o, char* b, size_t cap) {
+  size_t n = 0;
+  switch (k) {
+  case K_ARRAY: case K_LIST:
+    n += snprintf(b + n, cap - n, "len=%zu:", len(o));
+    for (size_t i = 0; i < len(o) && i < 6; i++) n += snprintf(b + n, cap - n, "%" PRId64 ",", c_int(get(o, $I((int64_t)i))));
+    { size_t cnt = 0; foreach (x in o) { cnt++; if (cnt > 8) break; } n += snprintf(b + n, cap - n, " iter=%zu", cnt); }
+    break;
+  case K_TABLE: case K_TREE:
+    n += snprintf(b + n, cap - n, "len=%zu:", len(o));
+    for (int i = 0; i < 3; i++) { if (mem(o, $I(i))) n += snprintf(b + n, cap - n, "%d=%" PRId64 ",", i, c_int(get(o, $I(i)))); }
+    { size_t cnt = 0; foreach (x in o) { cnt++; if (cnt > 8) break; } n += snprintf(b + n, cap - n, " iter=%zu", cnt); }
+    break;
+  case K_STRING: snprintf(b, cap, "\"%s\" len=%zu", c_str(o), len(o)); break;
+  case K_INT: snprintf(b, cap, "%" PRId64, c_int(o)); break;
+  case K_FLOAT: snprintf(b, cap, "%g", c_float(o)); break;
+  case K_REF: snprintf(b, cap, "ref-to-target=%d", deref(o) == g_reft); break;
+  case K_BOX: { var c = deref(o); snprintf(b, cap, "box=%" PRId64, c ? c_int(c) : -1); } break;
+  case K_TUPLE: snprintf(b, cap, "len=%zu a=%d b=%d", len(o), len(o) > 0 && get(o, $I(0)) == g_ta, len(o) > 1 && get(o, $I(1)) == g_tb); break;
+  case K_RANGE: { struct Range* r = o; snprintf(b, cap, "%" PRId64 "..%" PRId64 " step %" PRId64 " len=%zu", r->start, r->stop, r->step, len(o)); } break;
+  case K_FILE: snprintf(b, cap, "file-open=%d", ((struct File*)o)->file != NULL); break;
+  case K_MUTEX: { bool got = trylock(o); if (got) unlock(o); snprintf(b, cap, "mutex-free=%d", (int)got); } break;
+  default: snprintf(b, cap, "func-ok=%d", ((struct Function*)o)->func == null_fn); break;
+  }
+}
+
+/* one further valid operation on the receiver, undone again */
+static int still_usable(int k, var o) {
+  switch (k) {
+  case K_ARRAY: case K_LIST: push(o, $I(12)); if (len(o) != 3 || c_int(get(o, $I(2))) != 12) return 0; pop(o); return len(o) == 2;
+  case K_TABLE: case K_TREE: set(o, $I(2), $I(12)); if (len(o) != 3 || c_int(get(o, $I(2))) != 12) return 0; rem(o, $I(2)); return len(o) == 2;
+  case K_STRING: append(o, $S("c")); if (strcmp(c_str(o), "abc") != 0) return 0; assign(o, $S("ab")); return strcmp(c_str(o), "ab") == 0;
+  case K_INT: assign(o, $I(6)); if (c_int(o) != 6) return 0; assign(o, $I(5)); return 1;
+  case K_FLOAT: assign(o, $F(3.5)); if (c_float(o) != 3.5) return 0; assign(o, $F(2.5)); return 1;
+  case K_REF: return deref(o) == g_reft;
+  case K_BOX: return deref(o) != NULL && c_int(deref(o)) == 88;
+  case K_TUPLE: return get(o, $I(1)) == g_tb;
+  case K_RANGE: { size_t c = 0; foreach (x in o) { c++; if (c > 8) break; } return c == 3; }
+  case K_FILE: { var e = VF_CATCH(seof(o)); return e == IOError; }      /* a closed File still refuses use, nothing more */
+  case K_MUTEX: lock(o); unlock(o); return 1;
+  default: { int64_t c0 = fn_calls; call_with(o, g_args0); return fn_calls == c0 + 1; }
+  }
+}
+
+enum { N_LEN, N_PUSH, N_PUSH_AT, N_POP, N_POP_AT, N_GET, N_SET, N_MEM, N_REM, N_KEY_TYPE, N_VAL_TYPE,
+       N_C_INT, N_C_FLOAT, N_C_STR, N_ITER_INIT, N_ITER_NEXT, N_ITER_LAST, N_ITER_PREV, N_ITER_TYPE,
+       N_CALL, N_SOPEN, N_SCLOSE, N_SSEEK, N_STELL, N_SFLUSH, N_SEOF, N_SREAD, N_SWRITE,
+       N_LOCK, N_UNLOCK, N_TRYLOCK, N_CURRENT, N_REF, N_DEREF, N_SORT, N_SORT_BY, N_RESIZE, N_CONCAT, N_APPEND,
+       N_FORMAT_TO, N_FORMAT_FROM, N_LOOK_FROM, N_SHOW_TO, N_START, N_STOP, N_JOIN, N_RUNNING,
+       N_TYPE_OF, N_CAST, N_INSTANCE, N_IMPLEMENTS, N_TYPE_INSTANCE, N_TYPE_IMPLEMENTS, N_SIZE,
+       N_ALLOC, N_ALLOC_RAW, N_ALLOC_ROOT, N_NEW, N_NEW_RAW, N_NEW_ROOT, N_DEL, N_DEL_RAW, N_DEL_ROOT,
+       N_DEALLOC, N_DEALLOC_RAW, N_DEALLOC_ROOT, N_CONSTRUCT, N_DESTRUCT,
+       N_ASSIGN, N_COPY, N_SWAP, N_CMP, N_EQ, N_NEQ, N_GT, N_LT, N_GE, N_LE, N_HASH,
+       N_PRINT_TO, N_SCAN_FROM, N_MARK, NNF };
+
+/*
+** nobj: number of object parameters (receiver included).  cls/mem: what the receiver must implement for the call
+** to get as far as the other parameters (NULL: any receiver).  typelevel: the receiver is a type object.
+*/
+static const struct nfn { const char* fn; int nobj; const char* cls; const char* mem; int typelevel; } NF[NNF] = {
+  { "len", 1, "Len", "len" }, { "push", 2, "Push", "push" }, { "push_at", 3, "Push", "push_at" }, { "pop", 1, "Push", "pop" }, { "pop_at", 2, "Push", "pop_at" },
+  { "get", 2, "Get", "get" }, { "set", 3, "Get", "set" }, { "mem", 2, "Get", "mem" }, { "rem", 2, "Get", "rem" }, { "key_type", 1, "Get", "key_type" }, { "val_type", 1, "Get", "val_type" },
+  { "c_int", 1, "C_Int", "c_int" }, { "c_float", 1, "C_Float", "c_float" }, { "c_str", 1, "C_Str", "c_str" },
+  { "iter_init", 1, "Iter", "iter_init" }, { "iter_next", 2, "Iter", "iter_next" }, { "iter_last", 1, "Iter", "iter_last" }, { "iter_prev", 2, "Iter", "iter_prev" }, { "iter_type", 1, "Iter", "iter_type" },
+  { "call_with", 2, "Call", "call_with" },
+  { "sopen", 3, "Stream", "sopen" }, { "sclose", 1, "Stream", "sclose" }, { "sseek", 1, "Stream", "sseek" }, { "stell", 1, "Stream", "stell" }, { "sflush", 1, "Stream", "sflush" },
+  { "seof", 1, "Stream", "seof" }, { "sread", 1, "Stream", "sread" }, { "swrite", 1, "Stream", "swrite" },
+  { "lock", 1, "Lock", "lock" }, { "unlock", 1, "Lock", "unlock" }, { "trylock", 1, "Lock", "trylock" },
+  { "current", 1, "Current", "current", 1 }, { "ref", 2, "Pointer", "ref" }, { "deref", 1, "Pointer", "deref" },
+  { "sort", 1, "Sort", "sort_by" }, { "sort_by", 1, "Sort", "sort_by" }, { "resize", 1, "Resize", "resize" },
+  { "concat", 2, "Concat", "concat" }, { "append", 2, "Concat", "append" },
+  { "format_to", 1, "Format", "format_to" }, { "format_from", 1, "Format", "format_from" },
+  { "look_from", 2, "Show", "look" }, { "show_to", 2, NULL, NULL },
+  { "start", 1, "Start", "start" }, { "stop", 1, "Start", "stop" }, { "join", 1, "Start", "join" }, { "running", 1, "Start", "running" },
+  { "type_of", 1, NULL, NULL }, { "cast", 2, NULL, NULL }, { "instance", 2, NULL, NULL }, { "implements", 2, NULL, NULL },
+  { "type_instance", 2, NULL, NULL, 1 }, { "type_implements", 2, NULL, NULL, 1 }, { "size", 1, NULL, NULL, 1 },
+  { "alloc", 1, NULL, NULL, 1 }, { "alloc_raw", 1, NULL, NULL, 1 }, { "alloc_root", 1, NULL, NULL, 1 },
+  { "new_with", 2, NULL, NULL, 1 }, { "new_raw_with", 2, NULL, NULL, 1 }, { "new_root_with", 2, NULL, NULL, 1 },
+  { "del", 1, NULL, NULL }, { "del_raw", 1, NULL, NULL }, { "del_root", 1, NULL, NULL },
+  { "dealloc", 1, NULL, NULL }, { "dealloc_raw", 1, NULL, NULL }, { "dealloc_root", 1, NULL, NULL },
+  { "construct_with", 2, NULL, NULL }, { "destruct", 1, NULL, NULL },
+  { "assign", 2, NULL, NULL }, { "copy", 1, NULL, NULL }, { "swap", 2, NULL, NULL },
+  { "cmp", 2, NULL, NULL }, { "eq", 2, NULL, NULL }, { "neq", 2, NULL, NULL }, { "gt", 2, NULL, NULL }, { "lt", 2, NULL, NULL }, { "ge", 2, NULL, NULL }, { "le", 2, NULL, NULL },
+  { "hash", 1, NULL, NULL },
+  { "print_to_with", 2, "Format", "format_to" }, { "scan_from_with", 2, "Format", "format_from" }, { "mark", 2, NULL, NULL },
+};
+
+static volatile int n_returned;       /* the call came back normally */
+
+static void null_call(int f, var a0, var a1, var a2) {
+  char buf[8] = { 0 };
+  switch (f) {
+  case N_LEN: len(a0); break;
+  case N_PUSH: push(a0, a1); break;
+  case N_PUSH_AT: push_at(a0, a1, a2); break;
+  case N_POP: pop(a0); break;
+  case N_POP_AT: pop_at(a0, a1); break;
+  case N_GET: get(a0, a1); break;
+  case N_SET: set(a0, a1, a2); break;
+  case N_MEM: mem(a0, a1); break;
+  case N_REM: rem(a0, a1); break;
+  case N_KEY_TYPE: key_type(a0); break;
+  case N_VAL_TYPE: val_type(a0); break;
+  case N_C_INT: c_int(a0); break;
+  case N_C_FLOAT: c_float(a0); break;
+  case N_C_STR: c_str(a0); break;
+  case N_ITER_INIT: iter_init(a0); break;
+  case N_ITER_NEXT: iter_next(a0, a1); break;
+  case N_ITER_LAST: iter_last(a0); break;
+  case N_ITER_PREV: iter_prev(a0, a1); break;
+  case N_ITER_TYPE: iter_type(a0); break;
+  case N_CALL: call_with(a0, a1); break;
+  case N_SOPEN: sopen(a0, a1, a2); break;
+  case N_SCLOSE: sclose(a0); break;
+  case N_SSEEK: sseek(a0, 0, SEEK_SET); break;
+  case N_STELL: stell(a0); break;
+  case N_SFLUSH: sflush(a0); break;
+  case N_SEOF: seof(a0); break;
+  case N_SREAD: sread(a0, buf, 1); break;
+  case N_SWRITE: swrite(a0, buf, 1); break;
+  case N_LOCK: lock(a0); break;
+  case N_UNLOCK: unlock(a0); break;
+  case N_TRYLOCK: trylock(a0); break;
+  case N_CURRENT: current(a0); break;
+  case N_REF: ref(a0, a1); break;
+  case N_DEREF: deref(a0); break;
+  case N_SORT: sort(a0); break;
+  case N_SORT_BY: sort_by(a0, api_lt); break;
+  case N_RESIZE: resize(a0, 2); break;
+  case N_CONCAT: concat(a0, a1); break;
+  case N_APPEND: append(a0, a1); break;
+  case N_FORMAT_TO: format_to(a0, 0, "x"); break;
+  case N_FORMAT_FROM: format_from(a0, 0, "x"); break;
+  case N_LOOK_FROM: look_from(a0, a1, 0); break;
+  case N_SHOW_TO: show_to(a0, a1, 0); break;
+  case N_START: start(a0); break;
+  case N_STOP: stop(a0); break;
+  case N_JOIN: join(a0); break;
+  case N_RUNNING: running(a0); break;
+  case N_TYPE_OF: type_of(a0); break;
+  case N_CAST: cast(a0, a1); break;
+  case N_INSTANCE: instance(a0, a1); break;
+  case N_IMPLEMENTS: implements(a0, a1); break;
+  case N_TYPE_INSTANCE: type_instance(a0, a1); break;
+  case N_TYPE_IMPLEMENTS: type_implements(a0, a1); break;
+  case N_SIZE: size(a0); break;
+  case N_ALLOC: alloc(a0); break;
+  case N_ALLOC_RAW: alloc_raw(a0); break;
+  case N_ALLOC_ROOT: alloc_root(a0); break;
+  case N_NEW: new_with(a0, a1); break;
+  case N_NEW_RAW: new_raw_with(a0, a1); break;
+  case N_NEW_ROOT: new_root_with(a0, a1); break;
+  case N_DEL: del(a0); break;
+  case N_DEL_RAW: del_raw(a0); break;
+  case N_DEL_ROOT: del_root(a0); break;
+  case N_DEALLOC: dealloc(a0); break;
+  case N_DEALLOC_RAW: dealloc_raw(a0); break;
+  case N_DEALLOC_ROOT: dealloc_root(a0); break;
+  case N_CONSTRUCT: construct_with(a0, a1); break;
+  case N_DESTRUCT: destruct(a0); break;
+  case N_ASSIGN: assign(a0, a1); break;
+  case N_COPY: copy(a0); break;
+  case N_SWAP: swap(a0, a1); break;
+  case N_CMP: cmp(a0, a1); break;
+  case N_EQ: eq(a0, a1); break;
+  case N_NEQ: neq(a0, a1); break;
+  case N_GT: gt(a0, a1); break;
+  case N_LT: lt(a0, a1); break;
+  case N_GE: ge(a0, a1); break;
+  case N_LE: le(a0, a1); break;
+  case N_HASH: hash(a0); break;
+  case N_PRINT_TO: print_to_with(a0, 0, "%$", a1); break;
+  case N_SCAN_FROM: scan_from_with(a0, 0, "%i", a1); break;
+  case N_MARK: mark(a0, a1, null_markcb); break;
+  }
+  n_returned = 1;
+}
+
+/* a valid object for parameter `pos` of function f when the receiver is of kind k */
+static var null_arg(int f, int pos, int k) {
+  switch (f) {
+  case N_PUSH: case N_APPEND: case N_MEM: case N_REM: case N_REF: case N_ASSIGN:
+    return k == K_STRING ? g_strA : k == K_TUPLE ? g_ta : g_int7;
+  case N_PUSH_AT: return pos == 1 ? (k == K_STRING ? g_strA : g_int7) : g_idx0;
+  case N_SET: return pos == 1 ? g_idx0 : (k == K_STRING ? g_strA : g_int7);
+  case N_SOPEN: return pos == 1 ? g_strA : g_strR;
+  case N_LOOK_FROM: return g_in;
+  case N_SHOW_TO: return g_out;
+  case N_PRINT_TO: return g_args0;
+  case N_SCAN_FROM: return pos == 0 ? g_in : g_args0;
+  case N_CALL: case N_NEW: case N_NEW_RAW: case N_NEW_ROOT: case N_CONSTRUCT: return g_args0;
+  case N_CAST: case N_INSTANCE: case N_IMPLEMENTS: case N_TYPE_INSTANCE: case N_TYPE_IMPLEMENTS: return Len;
+  default: return g_idx0;
+  }
+}
+
+/*
+** DECISION TABLE.  Everything not listed here must raise an exception from the accept set
+** {ValueError, TypeError, ClassError, KeyError, IndexOutOfBoundsError, FormatError, IOError, ResourceError}
+** and leave the valid receiver exactly as it was.  Listed: the calls for which NULL is a VALUE the library
+** documents or plainly handles - they may return normally, and those marked `stores` may change the receiver.
+*/
+#define NV_OK      1     /* may return normally; receiver unchanged */
+#define NV_STORES  2     /* may return normally and keep the NULL inside the receiver */
+#define NV_DEFECT  4     /* crashes / misbehaves on the tree this was written against (proposed/C12-null-*.md): the
+                            case is skipped unless defects=1, so that it cannot end the instance and mask the rest */
+static int null_decision(int f, int pos, int k) {
+  int is_new = f == N_NEW || f == N_NEW_RAW || f == N_NEW_ROOT;
+  /* ---- NULL is a value here -------------------------------------------------------------------------- */
+  /* mark(NULL, ..) is a documented no-op ("if (self is NULL) return" in GC.c); the gc argument is an opaque
+     token that is only handed on to the callback */
+  if (f == N_MARK) return NV_OK;
+  /* show_to(NULL, out, pos) prints "<NULL>" (Show.c) */
+  if (f == N_SHOW_TO && pos == 0) return NV_OK;
+  /* del / del_root hand the pointer to the collector's registry, which ignores what it does not hold - the same
+     rule that makes del of a stack object a no-op; del_raw(NULL) and dealloc(NULL) do raise */
+  if ((f == N_DEL || f == N_DEL_ROOT) && pos == 0) return NV_OK;
+  /* call_with(fn, NULL): the argument list is passed through to the user's function untouched */
+  if (f == N_CALL && pos == 1) return NV_OK;
+  /* a Tuple stores object pointers as they are, NULL included (push, push_at, append, set) */
+  if (k == K_TUPLE && ((f == N_PUSH && pos == 1) || (f == N_PUSH_AT && pos == 1) || (f == N_APPEND && pos == 1) || (f == N_SET && pos == 2))) return NV_STORES;
+  /* Ref and Box may hold NULL: ref(r, NULL) */
+  if (f == N_REF && pos == 1 && (k == K_REF || k == K_BOX)) return NV_STORES;
+  /* the Mutex constructor takes no arguments and never looks at the list */
+  if ((f == N_CONSTRUCT || is_new) && pos == 1 && k == K_MUTEX) return NV_OK;
+  /* iteration position: a Tuple's cursor is the stored item itself (which may be NULL, see above) and is looked
+     for by identity; a Range keeps its own cursor and ignores the argument */
+  if ((f == N_ITER_NEXT || f == N_ITER_PREV) && pos == 1 && (k == K_TUPLE || k == K_RANGE)) return NV_OK;
+  /* ---- recorded defects (each raises ValueError once proposed/C12-null-*.patch is applied) ------------- */
+  /* NULL type: Type_Instance indexes the cache slots of NULL -> SIGSEGV */
+  if (pos == 0 && (f == N_CURRENT || f == N_TYPE_INSTANCE || f == N_SIZE || f == N_ALLOC || f == N_ALLOC_RAW || f == N_ALLOC_ROOT || is_new)) return NV_DEFECT;
+  /* NULL class: Type_Scan's memo loop matches the first triple whose cls memo is still NULL and returns ITS instance
+     (implements says true); with every memo filled it dereferences NULL for the name */
+  if (pos == 1 && (f == N_INSTANCE || f == N_IMPLEMENTS || f == N_TYPE_INSTANCE || f == N_TYPE_IMPLEMENTS)) return NV_DEFECT;
+  /* assign(table_or_tree, NULL) raises ValueError after clearing the receiver */
+  if (f == N_ASSIGN && pos == 1 && (k == K_TABLE || k == K_TREE)) return NV_DEFECT;
+  /* look_from(string, NULL, pos) raises ValueError after clearing the string */
+  if (f == N_LOOK_FROM && pos == 1 && k == K_STRING) return NV_DEFECT;
+  /* iter_next / iter_prev with a NULL position: SIGSEGV in List, Table, Tree; a wild pointer from Array */
+  if ((f == N_ITER_NEXT || f == N_ITER_PREV) && pos == 1 && (k == K_ARRAY || k == K_LIST || k == K_TABLE || k == K_TREE)) return NV_DEFECT;
+  return 0;
+}
+
+static void null_case(int f, int pos, int k, int survey) {
+  static char fp0[256], fp1[256];
+  int typelevel = NF[f].typelevel;
+  var recv = pos == 0 ? NULL : (typelevel ? type_of(RCV[k]) : RCV[k]);
+  var a[3];
+  for (int i = 0; i < 3; i++) a[i] = i == pos ? NULL : i == 0 ? recv : i < NF[f].nobj ? null_arg(f, i, k) : NULL;
+  if (pos == 0) vf_set_cur("null fn=%s pos=0", NF[f].fn);
+  else vf_set_cur("null fn=%s pos=%d recv=%s", NF[f].fn, pos, KN[k]);
+  if (vf.replay && strcmp(vf.replay, vf_cur) != 0) return;
+  int dec = null_decision(f, pos, k);
+  if ((dec & NV_DEFECT) && !survey && !vf_param_i("defects", 0)) { vf_extra_skipped++; return; }
+  vf_watchdog(20);
+  if (pos) fingerprint(k, RCV[k], fp0, sizeof fp0);
+  n_returned = 0;
+  var e = VF_CATCH(null_call(f, a[0], a[1], a[2]));
+  vf.executions++; vf.transitions++; vf.evaluations++;
+  if (survey) {
+    if (pos) { var e2 = VF_CATCH(fingerprint(k, RCV[k], fp1, sizeof fp1)); if (e2) snprintf(fp1, sizeof fp1, "fingerprint raises %s", vf_exc_name(e2)); }
+    printf("SURVEY %-16s pos=%d recv=%-8s -> %s%s%s\n", NF[f].fn, pos, pos ? KN[k] : "-", e ? vf_exc_name(e) : "returns",
+      pos && strcmp(fp0, fp1) ? "  CHANGED: " : "", pos && strcmp(fp0, fp1) ? fp1 : "");
+    fflush(stdout);
+    return;
+  }
+  char l[200];
+  const char* rk = pos ? KN[k] : "-";
+  if (!e) {
+    if (!(dec & (NV_OK | NV_STORES))) {
+      snprintf(l, sizeof l, "null/%s/arg%d/%s/returned-normally", NF[f].fn, pos, rk);
+      vf_violation(l, NULL, "%s with NULL as argument %d returned normally; an exception (ValueError) is what the property promises", NF[f].fn, pos);
+    }
+  } else if (e != ValueError && e != TypeError && e != ClassError && e != KeyError && e != IndexOutOfBoundsError && e != FormatError && e != IOError && e != ResourceError) {
+    snprintf(l, sizeof l, "null/%s/arg%d/%s/raised-%s", NF[f].fn, pos, rk, vf_exc_name(e));
+    vf_violation(l, NULL, "%s with NULL as argument %d raised %s", NF[f].fn, pos, vf_exc_name(e));
+  }
+  if (e) vf.nontrivial++;
+  if (pos) {
+    volatile int usable = 1;
+    int stores = (dec & NV_STORES) && !e;
+    var e2 = NULL;
+    if (!stores) {
+      e2 = VF_CATCH(fingerprint(k, RCV[k], fp1, sizeof fp1));
+      if (e2 || strcmp(fp0, fp1) != 0) {
+        snprintf(l, sizeof l, "null/%s/arg%d/%s/receiver-changed", NF[f].fn, pos, rk);
+        vf_violation(l, NULL, "after %s(.., NULL at %d, ..) the %s receiver reads %s%s, before the call: %s", NF[f].fn, pos, rk, e2 ? "raises " : "", e2 ? vf_exc_name(e2) : fp1, fp0);
+        stores = 1;      /* rebuild below */
+      } else {
+        e2 = VF_CATCH(usable = still_usable(k, RCV[k]));
+        if (e2 || !usable) {
+          snprintf(l, sizeof l, "null/%s/arg%d/%s/receiver-unusable", NF[f].fn, pos, rk);
+          vf_violation(l, NULL, "after %s(.., NULL at %d, ..) a further valid operation on the %s receiver %s%s", NF[f].fn, pos, rk, e2 ? "raises " : "gives a wrong result", e2 ? vf_exc_name(e2) : "");
+          stores = 1;
+        }
+      }
+    }
+    if (stores) { RCV[k] = make_recv(k); }     /* the old one is abandoned (it may hold NULL by design) */
+  }
+  if (vf_want_sample()) vf_sample("%s", vf_cur);
+}
+
+struct null_args { int f, pos, k; };
+static void null_child(void* p) { struct null_args* a = p; null_case(a->f, a->pos, a->k, 1); }
+/* survey=1: every case in a forked child, outcome printed (how the decision table was drawn up) */
+static void null_run(int f, int pos, int k, int survey) {
+  if (!survey) { null_case(f, pos, k, 0); return; }
+  struct null_args a = { f, pos, k };
+  struct vf_child r = vf_fork_run(null_child, &a, 20);
+  if (r.signaled) printf("SURVEY %-16s pos=%d recv=%-8s -> %s %d\n", NF[f].fn, pos, pos ? KN[k] : "-", r.timed_out ? "HANG" : "SIGNAL", r.sig);
+  else if (r.status) printf("SURVEY %-16s pos=%d recv=%-8s -> exit %d\n", NF[f].fn, pos, pos ? KN[k] : "-", r.status);
+}
+
+static void mode_null(void) {
+  vf.phase = "null";
+  int survey = (int)vf_param_i("survey", 0);
+  g_int7 = new_raw(Int, $I(7)); g_idx0 = new_raw(Int, $I(0)); g_strA = new_raw(String, $S("a")); g_strR = new_raw(String, $S("r"));
+  g_out = new_raw(String, $S("")); g_in = new_raw(String, $S("1 2 3")); g_ta = new_raw(Int, $I(1)); g_tb = new_raw(Int, $I(2));
+  g_reft = new_raw(Int, $I(77)); g_args0 = new_raw(Tuple);
+  for (int k = 0; k < NK; k++) RCV[k] = make_recv(k);
+  /* (a) NULL receiver, simplest first */
+  for (int f = 0; f < NNF; f++) null_run(f, 0, 0, survey);
+  /* (b) NULL in each further object position, for every receiver kind that gets that far */
+  for (int f = 0; f < NNF; f++) {
+    for (int pos = 1; pos < NF[f].nobj; pos++) {
+      for (int k = 0; k < NK; k++) {
+        if (NF[f].cls) {
+          int ci = find_class(NF[f].cls), mi = find_member(ci, NF[f].mem);
+          var T = NF[f].typelevel ? type_of(type_of(RCV[k])) : type_of(RCV[k]);
+          if (!type_implements_method_at_offset(T, U[ci].obj, U[ci].off[mi])) continue;
+        }
+        null_run(f, pos, k, survey);
+      }
+    }
+  }
+  vf_extra("null_cases_skipped_recorded_defect", "%d", vf_extra_skipped);
+  if (vf_extra_skipped) vf_note("%d NULL cases that crash or misbehave on the tree without proposed/C12-null-*.patch were skipped (run with defects=1 once it is applied)", vf_extra_skipped);
+}
+
 /* ---- cross-check of the hand-written tables against the header actually used ------------ */
 
 static void crosscheck_header(void) {
@@ -1544,6 +1920,7 @@ int main(int argc, char** argv) {
   else if (strcmp(mode, "rt") == 0) mode_rt();
   else if (strcmp(mode, "recycle") == 0) mode_recycle();
   else if (strcmp(mode, "api") == 0) mode_api();
+  else if (strcmp(mode, "null") == 0) mode_null();
   else fatal("unknown mode %s", mode);
   if (vf_param_i("count", 1) == 0) {
     /* this instance re-explores a space that another instance of the check owns (a shallower depth, a sanitizer
